@@ -481,6 +481,13 @@ M("C02", "cube-header-core-charge-column", F + "cube.py", r"\{atnums\[i\]:5d\} \
 M("C02", "poscar-fractional-with-untransposed-inverse", F + "poscar.py", r"gvecs = np\.linalg\.inv\(data\.cellvecs\)\.T", "gvecs = np.linalg.inv(data.cellvecs)", "C02-R26")
 T("C02", "poscar-fractional-by-solve-free-form", F + "poscar.py", r"            row = np\.dot\(gvecs, data\.atcoords\[index\]\)", "            row = np.dot(data.atcoords[index], gvecs.T)")
 
+M("C01", "fchk-pure-shell-sign-lost", F + "fchk.py", r"shell_types\.append\(-1 \* shell\.angmoms\[0\]\)", "shell_types.append(shell.angmoms[0])", "C01-R17")
+M("C01", "fchk-sp-coefficients-not-padded", F + "fchk.py", r"                else:\n                    sp_coeffs\.extend\(\[0\.0\] \* shell\.nexp\)\n", "", "C01-R17")
+T("C01", "fchk-reader-pure-test-below-sp-code", F + "fchk.py", r"\[\"p\" if shell_types\[i\] < 0 else \"c\"\]", "[\"p\" if shell_types[i] < -1 else \"c\"]")
+M("C01", "fchk-reader-pure-kind-inverted", F + "fchk.py", r"\[\"p\" if shell_types\[i\] < 0 else \"c\"\]", "[\"p\" if shell_types[i] > 0 else \"c\"]", "C01-R17")
+M("C02", "fchk-reader-counter-per-shell", F + "fchk.py", r"        counter \+= n\n    del shell_map", "        counter += 1\n    del shell_map", "C02-R27")
+T("C01", "fchk-shell-types-by-comprehension-free-loop", F + "fchk.py", r"shell_types\.append\(-1 \* shell\.angmoms\[0\]\)", "shell_types.append(-int(shell.angmoms[0]))")
+
 
 def _run_one(args):
     spec, repo = args
